@@ -235,17 +235,27 @@ func (bm *ConnectedBitmask) Xor(other ConnectedBitmask) {
 
 func (bm ConnectedBitmask) XorCopy(other ConnectedBitmask) ConnectedBitmask {
 	new := []connectedBitmaskEntry(nil)
+	add := func(entries ...connectedBitmaskEntry) {
+		for _, n := range entries {
+			if l := len(new); l != 0 && new[l-1].max+1 == n.min {
+				// merge touching entries
+				new[l-1].max = n.max
+			} else {
+				new = append(new, n)
+			}
+		}
+	}
 	aIdx, bIdx := 0, 0
 	for aIdx < len(bm.entries) && bIdx < len(other.entries) {
 		a, b := bm.entries[aIdx], other.entries[bIdx]
 		for {
 			if a.max < b.min {
-				new = append(new, a)
+				add(a)
 				aIdx++
 				break
 			}
 			if b.max < a.min {
-				new = append(new, b)
+				add(b)
 				bIdx++
 				break
 			}
@@ -258,7 +268,7 @@ func (bm ConnectedBitmask) XorCopy(other ConnectedBitmask) ConnectedBitmask {
 					n.min = b.min
 					n.max = a.min - 1
 				}
-				new = append(new, n)
+				add(n)
 			}
 			if a.max == b.max {
 				aIdx++
@@ -269,7 +279,7 @@ func (bm ConnectedBitmask) XorCopy(other ConnectedBitmask) ConnectedBitmask {
 				a.min = b.max + 1
 				bIdx++
 				if bIdx >= len(other.entries) {
-					new = append(new, a)
+					add(a)
 					aIdx++
 					break
 				}
@@ -278,7 +288,7 @@ func (bm ConnectedBitmask) XorCopy(other ConnectedBitmask) ConnectedBitmask {
 				b.min = a.max + 1
 				aIdx++
 				if aIdx >= len(bm.entries) {
-					new = append(new, b)
+					add(b)
 					bIdx++
 					break
 				}
@@ -286,8 +296,8 @@ func (bm ConnectedBitmask) XorCopy(other ConnectedBitmask) ConnectedBitmask {
 			}
 		}
 	}
-	new = append(new, bm.entries[aIdx:]...)
-	new = append(new, other.entries[bIdx:]...)
+	add(bm.entries[aIdx:]...)
+	add(other.entries[bIdx:]...)
 	return ConnectedBitmask{new}
 }
 
